@@ -485,7 +485,10 @@ func (w *World) onConfApplied(n *node, idx uint64, cs *pb.ConfState, next model.
 	if !boot {
 		_, prev := n.disk.mconfLookup(idx - 1)
 		for _, set := range [][]uint64{prev.Voters(), prev.Outgoing()} {
-			if len(set) == 2 {
+			// (a voter leaving a set of one or two voters: the remaining members
+			// may need the departed voter for their stale quorum, and it may
+			// refuse - README "use three or more nodes")
+			if len(set) == 2 || len(set) == 1 {
 				for _, id := range set {
 					if !got.V[id] {
 						m.twoVoterExc = true
@@ -493,7 +496,7 @@ func (w *World) onConfApplied(n *node, idx uint64, cs *pb.ConfState, next model.
 				}
 			}
 		}
-		if len(got.V) == 2 && len(got.O) > 0 || len(got.O) == 2 {
+		if len(got.V) <= 2 && len(got.O) > 0 || len(got.O) == 2 || len(got.O) == 1 {
 			m.twoVoterExc = true
 		}
 	}
